@@ -157,10 +157,15 @@ fn judge_encoding(scn: &EncScenario, acc: &mut Acc) -> Option<Violation> {
             acc.count("skipped.const_array_extension_rejected_by_profile", 1);
             return None;
         }
+        let clash = if categorize_solver_error(&msg) == "redefinition" && crate::sgen::sysgen::has_clash_names(&scn.sys) {
+            ":input-uses-generated-looking-name"
+        } else {
+            ""
+        };
         let v = mk(
             "C04/wire",
             "Rejected",
-            format!("solver-rejects:{}", categorize_solver_error(&msg)),
+            format!("solver-rejects:{}{clash}", categorize_solver_error(&msg)),
             format!("a standard-conforming solver rejects `{}`: {msg}", e.cmd),
         );
         return if filter_known(acc, &v) { None } else { Some(v) };
@@ -378,9 +383,15 @@ impl Property for C04 {
         };
         // (a) direct driver of the unrolling API; no exhaustive oracle needed, so larger systems
         // and the init-without-next shape are allowed
+        let clash = crng.chance(1, 5);
         let sys = gen_system(&mut rng, msb, mib, false, |c| {
             c.init_without_next = true;
+            if clash {
+                c.named_nodes = true;
+                c.clash_names = true;
+            }
         });
+        acc.count("probe.system_with_generated_looking_names", crate::sgen::sysgen::has_clash_names(&sys) as u64);
         acc.count("probe.signal_shared_by_init_and_next", use_class_probe(&sys) as u64);
         acc.count("probe.state_with_init_without_next", sys.states.iter().any(|s| s.init.is_some() && s.next.is_none()) as u64);
         for variant in 0..2u64 {
